@@ -45,6 +45,8 @@
 #include "extensions/qconfig.h"
 
 #define _INCLUDE_DIRECTIVE  "@INCLUDE "
+#define _MAX_INCLUDES       (128)  /* include directives processed per file */
+#define _MAX_INCLUDED_SIZE  (16 * 1024 * 1024)  /* size of the spliced text */
 
 #ifndef _DOXYGEN_SKIP
 #define _VAR        '$'
@@ -131,10 +133,18 @@ qlisttbl_t *qconfig_parse_file(qlisttbl_t *tbl, const char *filepath,
 
     // process include directive
     char *strp = str;
+    int numincludes = 0;
 
     while ((strp = strstr(strp, _INCLUDE_DIRECTIVE)) != NULL) {
         if (strp == str || strp[-1] == '\n') {
             char buf[PATH_MAX];
+
+            // files including themselves or each other would never end
+            if (++numincludes > _MAX_INCLUDES) {
+                DEBUG("Too many %s directives.", _INCLUDE_DIRECTIVE);
+                free(str);
+                return NULL;
+            }
 
             // parse filename
             char *tmpp;
@@ -185,6 +195,12 @@ qlisttbl_t *qconfig_parse_file(qlisttbl_t *tbl, const char *filepath,
             free(incdata);
             free(str);
             str = strp;
+            // each round may multiply the text
+            if (str == NULL || strlen(str) > _MAX_INCLUDED_SIZE) {
+                DEBUG("Can't process %s directive.", _INCLUDE_DIRECTIVE);
+                free(str);
+                return NULL;
+            }
         } else {
             strp += CONST_STRLEN(_INCLUDE_DIRECTIVE);
         }
